@@ -61,11 +61,11 @@ class DataStream(object):
         #: Random number generator
         self.rng = xp.random.default_rng(seed)
         
-        self.sample_rate = unit_utils.get_value(sample_rate, u.Hz)
+        self.sample_rate = float(unit_utils.get_value(sample_rate, u.Hz))
         self.dt = 1 / self.sample_rate
         
         # For adjusting signal frequencies
-        self.fch1 = unit_utils.get_value(fch1, u.Hz)
+        self.fch1 = float(unit_utils.get_value(fch1, u.Hz))
         self.ascending = ascending
         
         # For estimating SNR for signals
@@ -73,7 +73,9 @@ class DataStream(object):
         self.bg_noise_std = 0
         
         # Tracks start time of next sequence of data
-        self.t_start = t_start
+        # A plain float: a float32 start time would freeze the clock (float32 += small float), 
+        # a 0-d array would be shared and advanced in place by every stream holding it
+        self.t_start = float(t_start)
         self.start_obs = True
         self.ts = None
         self.v = None
@@ -98,7 +100,7 @@ class DataStream(object):
         Set start time before next set of samples.
         """
         self.start_obs = True
-        self.t_start = t
+        self.t_start = float(t)
         
     def add_time(self, t):
         """
@@ -123,7 +125,9 @@ class DataStream(object):
         _, self.noise_std = estimate_stats(v, stats_calc_num_samples=stats_calc_num_samples)
         
         self.start_obs = start_obs
-        self.t_start = t_start
+        # A plain float: a float32 start time would freeze the clock (float32 += small float), 
+        # a 0-d array would be shared and advanced in place by every stream holding it
+        self.t_start = float(t_start)
         
     def get_total_noise_std(self):
         """
@@ -187,8 +191,9 @@ class DataStream(object):
         phase : float
             Phase, in radiations
         """
-        f_start = unit_utils.get_value(f_start, u.Hz)
-        drift_rate = unit_utils.get_value(drift_rate, u.Hz / u.s)
+        # Floats: an unsigned integer f_start would wrap around in f_start - fch1
+        f_start = float(unit_utils.get_value(f_start, u.Hz))
+        drift_rate = float(unit_utils.get_value(drift_rate, u.Hz / u.s))
         
         def signal_func(ts):
             # Calculate adjusted center frequencies, according to chirp
